@@ -209,6 +209,27 @@ def reach_align_program(rnd):
     return [L('    align 4', 'align', 'align', [4]), L('T:', 'label', 'T')] + pairs + body + [nop() for _ in range(k)] + [t, nop()]
 
 
+def odd_code_program(rnd):
+    """odd-sized data directly in front of straight-line code, no align: accepted without -c (nothing requires code to be
+    aligned until something jumps to it), so it is accepted with -c, and every line means the same"""
+    L = progs.Ln
+    lines = []
+    for _ in range(rnd.randrange(1, 4)):
+        k = rnd.choice(['db', 'string', 'bytes'])
+        if k == 'db':
+            lines.append(L('    db %d' % rnd.randrange(256), 'short', 'db', [rnd.randrange(1)]))
+            lines[-1].ops = [int(lines[-1].text.split()[1])]
+        elif k == 'string':
+            t = 'x' * rnd.choice([1, 3, 5])
+            lines.append(L('    string ' + t, 'string', 'string', [t]))
+        else:
+            lines.append(L('    bytes 1 2 3', 'seq', 'bytes', [1, 2, 3]))
+        for _ in range(rnd.randrange(1, 6)):
+            name, ops = progs.gen_instr(rnd)
+            lines.append(L(progs.line_text(rnd, name, ops), 'instr', name, ops))
+    return lines
+
+
 def one_case(args):
     seedv, idx, tier = args
     os.environ['VERIF_SEED'] = str(seedv)
@@ -219,6 +240,8 @@ def one_case(args):
         lines = layout_check.far_program(rnd)
     elif idx % 20 == 14:
         lines = reach_align_program(rnd)
+    elif idx % 20 == 7:
+        lines = odd_code_program(rnd)
     elif idx % 10 == 4:
         lines = reach_program(rnd)
     else:
